@@ -257,6 +257,48 @@ def _gauss_spec(c, x, mean, Sigma_diag=None, Sigma=None):
     raise NotImplementedError
 
 
+def banded_sqrtprec(c, storage, band, sparse_side):
+    """(native) square-root precision given as a sparse BANDED matrix (the class docstring's own example is an upper bidiagonal one in diagonal storage):
+    the distribution is N(mean, (R^T R)^-1) whatever sparse storage scheme carries R - the value is the documented one, or the normalised density is
+    refused (as it is for general sparse matrices without a sparse Cholesky); never a number for another matrix"""
+    import scipy.sparse as sp
+    from cuqi import config
+    n = 4; old = config.MIN_DIM_SPARSE; config.MIN_DIM_SPARSE = 0 if sparse_side == 'above' else 10 ** 6
+    try:
+        mean = c.vec('m', n); x = c.vec('x', n)
+        d0 = np.asarray(c.vec('d0', n, pos=True), dtype=float) + 0.5; up = np.asarray(c.vec('up', n - 1), dtype=float); lo = np.asarray(c.vec('lo', n - 1), dtype=float)
+        R = {'main_only': sp.diags([d0], [0]), 'upper': sp.diags([d0, up], [0, 1]), 'lower': sp.diags([d0, lo], [0, -1]),
+             'upper_scalar_diagonals': sp.diags([d0[0], up[0]], [0, 1], shape=(n, n)),          # the docstring's way of building it
+             'tridiagonal': sp.diags([d0 + 2, 0.3 * up, 0.3 * lo], [0, 1, -1])}[band].asformat(storage)
+        Rd = R.toarray(); P = Rd.T @ Rd; d = np.asarray(x - mean, dtype=float)
+        spec = -0.5 * (n * np.log(2 * np.pi) - np.linalg.slogdet(P)[1]) - 0.5 * float(d @ P @ d)
+        try: val = Gaussian(mean, sqrtprec=R).logpdf(x)
+        except NotImplementedError: c.holds('normalised_density_is_the_documented_one_or_refused', True); return
+        c.eq('normalised_density_is_the_documented_one_or_refused', np.asarray(val, dtype=float).reshape(-1)[0], spec)
+    finally:
+        config.MIN_DIM_SPARSE = old
+
+
+def dense_extreme_units(c, param, scale, sparse_side):
+    """(native) a correlated 40-dimensional Gaussian in units in which the determinant of its matrix lies outside the range of double precision (1e-5 / 1e5
+    standard deviations): the log-density is finite and the documented one - a function of the matrix, not of whether its determinant is representable"""
+    from cuqi import config
+    n = 40; old = config.MIN_DIM_SPARSE; config.MIN_DIM_SPARSE = 0 if sparse_side == 'above' else 10 ** 6
+    try:
+        i = np.arange(n); K = np.exp(-np.abs(np.subtract.outer(i, i)) / 3.0) + np.diag(np.asarray(c.vec('j', n, pos=True), dtype=float)) * 0.1
+        L = np.linalg.cholesky(K); mean = np.asarray(c.vec('m', n), dtype=float); x = mean + scale * np.asarray(c.vec('x', n), dtype=float)
+        Sigma_logdet = 2 * np.sum(np.log(np.diag(L))) + 2 * n * np.log(scale); d = (x - mean) / scale
+        spec = -0.5 * (n * np.log(2 * np.pi) + Sigma_logdet) - 0.5 * float(d @ np.linalg.solve(K, d))
+        w, V = np.linalg.eigh(K); Kh = (V * np.sqrt(w)) @ V.T; Kmh = (V / np.sqrt(w)) @ V.T; Ki = (V / w) @ V.T      # symmetric roots (exactly symmetrised:
+        sym = lambda M: 0.5 * (M + M.T)                                                                                  # the root convention is another matter)
+        arg = {'cov': scale ** 2 * K, 'prec': sym(Ki) / scale ** 2, 'sqrtcov': scale * sym(Kh), 'sqrtprec': sym(Kmh) / scale}[param]
+        val = np.asarray(Gaussian(mean, **{param: arg}).logpdf(x), dtype=float).reshape(-1)[0]
+        c.holds('log_density_is_finite', bool(np.isfinite(val)), note=repr(val))
+        c.holds('log_density_is_the_documented_one', bool(abs(val - spec) <= 1e-6 * max(1.0, abs(spec))), note=f'{val!r} vs {spec!r}')
+    finally:
+        config.MIN_DIM_SPARSE = old
+
+
 def gaussian_form(c, param, form, n, sparse_side, magnitude=None):
     """Gaussian given through `param` in input form `form`; the distribution it denotes is fixed by the documentation:
     cov -> Sigma ; prec -> Sigma = prec^-1 ; sqrtcov R -> Sigma = R^T R ; sqrtprec R -> Sigma = (R^T R)^-1.
@@ -379,6 +421,16 @@ def jobs(tier):
         for side in ('below', 'above'):
             for n in (4, 5):
                 J.append(Job(f'Gaussian.logpdf:{param}:block_dense:sparse_switch={side}:n={n}', lambda c, p=param, n=n, s=side: gaussian_form(c, p, 'block_dense', n, s), 'B', G, nnum=6 if q else 30))
+    for storage in ('dia', 'csr', 'csc'):
+        for band in ('main_only', 'upper', 'lower', 'upper_scalar_diagonals', 'tridiagonal'):
+            for side in ('below', 'above'):
+                J.append(Job(f'Gaussian.logpdf:sqrtprec:sparse_banded:{storage}:{band}:sparse_switch={side}', lambda c, st=storage, b=band, s=side: banded_sqrtprec(c, st, b, s),
+                             'B', G, nnum=4 if q else 12))
+    for param in ('cov', 'prec', 'sqrtcov', 'sqrtprec'):
+        for scale in (1e-5, 1e5):
+            for side in ('below', 'above'):
+                J.append(Job(f'Gaussian.logpdf:{param}:dense_correlated:n=40:units={scale:g}:sparse_switch={side}', lambda c, p=param, sc=scale, s=side: dense_extreme_units(c, p, sc, s),
+                             'B', G, nnum=2 if q else 6))
     # the same distributions in small / large units (native, bounded): full matrices whose entries are tiny or huge in absolute terms
     for param in ('cov', 'prec', 'sqrtcov', 'sqrtprec'):
         for form in ('dense', 'vector', 'sparsediag'):
